@@ -511,7 +511,9 @@ pub fn parent_main(prop: &'static dyn Prop, tier: Tier, seed: u64) -> i32 {
         children.push(Child { profile: p, child, out });
     }
     let limit = Duration::from_secs(match tier {
-        Tier::Quick => 900,
+        // (20-40 times the usual duration: a last resort only - a case that does not terminate is caught by the hang
+        // monitor long before; the margin is for machines loaded by other work)
+        Tier::Quick => 2400,
         Tier::Thorough => 4 * 3600,
     });
     let mut results: Vec<(&'static str, Value)> = Vec::new();
